@@ -7,6 +7,7 @@
 From Coq Require Import QArith Qreduction List Bool PArith ZArith Lia Lqa Setoid Morphisms.
 Import ListNotations.
 Local Open Scope Q_scope.
+Arguments Qred : simpl never.
 
 Definition var := positive.
 Definition lin := list (var * Q).
@@ -101,12 +102,21 @@ Proof.
   - intros H. exists v. split; [exact H | apply Pos.eqb_refl].
 Qed.
 
+Lemma NoDup_snoc : forall (A : Type) (l : list A) (x : A), NoDup l -> ~ In x l -> NoDup (l ++ [x]).
+Proof.
+  induction l as [|y l IH]; simpl; intros x Hnd Hx.
+  - constructor; [intros []|constructor].
+  - inversion Hnd; subst. constructor.
+    + rewrite in_app_iff. simpl. intros [H|[H|[]]]; [contradiction|]. subst. apply Hx. left. reflexivity.
+    + apply IH; [assumption|]. tauto.
+Qed.
+
 Lemma NoDup_keys_insert : forall v c l, NoDup (keys l) -> NoDup (keys (insert v c l)).
 Proof.
   intros v c l H. rewrite keys_insert.
   destruct (existsb (Pos.eqb v) (keys l)) eqn:E.
   - exact H.
-  - apply NoDup_app_snoc; [exact H|].
+  - apply NoDup_snoc; [exact H|].
     intros Hin. apply existsb_eqb_In in Hin. congruence.
 Qed.
 
@@ -219,15 +229,16 @@ Proof.
     assert (E : eval a (scale k (lhs c) ++ l') == k * eval a (lhs c) + eval a l')
       by (rewrite eval_app, eval_scale; reflexivity).
     unfold holds in Hh. unfold coeff_ok in Hk.
+    pose proof (Qred_correct (k * rhs c + r')) as HR.
     destruct (cop c); simpl.
     + apply Qlt_bool_iff in Hk.
       assert (k * eval a (lhs c) <= k * rhs c) by (apply Qmult_le_l; assumption).
-      destruct s'; rewrite E, Qred_correct; lra.
+      destruct s'; rewrite E; lra.
     + apply Qlt_bool_iff in Hk.
       assert (k * eval a (lhs c) < k * rhs c) by (apply Qmult_lt_l; assumption).
-      rewrite E, Qred_correct. destruct s'; lra.
+      rewrite E. destruct s'; lra.
     + assert (k * eval a (lhs c) == k * rhs c) by (rewrite Hh; reflexivity).
-      destruct s'; rewrite E, Qred_correct; lra.
+      destruct s'; rewrite E; lra.
 Qed.
 
 Theorem farkas_check_sound : forall cs ks,
@@ -237,7 +248,7 @@ Proof.
   destruct (comb cs ks) as [[[l r] s]|] eqn:Hc; [|discriminate].
   apply andb_true_iff in H. destruct H as [Hz Hf].
   pose proof (comb_bound a cs ks l r s Hc Hall) as Hb.
-  rewrite (is_zero_sound l Hz a) in Hb.
+  pose proof (is_zero_sound l Hz a) as Hz'.
   unfold const_false in Hf. destruct s.
   - apply Qle_bool_iff in Hf. lra.
   - apply Qlt_bool_iff in Hf. lra.
